@@ -107,6 +107,10 @@ func init() {
 	props["C07"].Harnesses = append(props["C07"].Harnesses,
 		HarnessSpec{Name: "VH_C07_decrypt_cert", Replay: "native"},
 		HarnessSpec{Name: "VH_C07_recipient", Replay: "native", Panics: true})
+	props["C13"].Harnesses = append(props["C13"].Harnesses,
+		HarnessSpec{Name: "VH_C13_signed_documents", Replay: "native", Unwind: 2000},
+		HarnessSpec{Name: "VH_C13_sign_is_pure", Replay: "native", Unwind: 2000})
+	props["C15"].Harnesses = append(props["C15"].Harnesses, HarnessSpec{Name: "VH_C13_sign_is_pure", Replay: "native", Unwind: 2000})
 	reg(&PropSpec{ID: "C14",
 		Harnesses: []HarnessSpec{
 			{Name: "VH_C14_auth_url", Replay: "native", Unwind: 400},
